@@ -80,6 +80,12 @@ def run(tier):
         if "identity" in str(m.get("id", "")):
             chk.violation({"kind": "identity:" + m["kind"], "program": m.get("program", ""), "what": m.get("what", "")[:200]}, m)
     cov["identity_cases_in_programs"] = n_id
+    # value arms of `match' compare by == with every listed value (C19: "== and value arms of match"): the value-arm
+    # cases among the extra cases of the type-test suite (MC_C12T ExtraCases)
+    rt = L.run_suite(chk, "c12t", tier)
+    for m in rt["mismatches"]:
+        if "extra" in str(m.get("id", "")) and "match" in str(m.get("program", "")):
+            chk.violation({"kind": "value-arm:" + m["kind"], "program": m.get("program", ""), "what": m.get("what", "")[:200]}, m)
     chk.assumptions += [
         "TLC/SANY and the CommunityModules (Json, IOUtils, SequencesExt) are correct",
         "the harness' renderer of producer expressions as source text (harness/src/eqv.rs: render_expr, "
